@@ -334,6 +334,7 @@ class ImplRun:
 
     def step(self, op):
         """returns ({cid: [raw...]}, set of cids the bus closed during this op)"""
+        op = norm_op(op)
         got = {cid: [] for cid in self.c if cid not in self.closed}
         newly = set()
         actor = None
@@ -603,8 +604,19 @@ def frozen_order(subs, order=None):
     return [sub for c in (order or frozen_conns(subs)) for sub in by[c]]
 
 
+def norm_op(op):
+    """a `send` whose bytes are not exactly one message (a valid message followed by more bytes: the rest stays in the
+    daemon's loader and would be continued by the harness's own barrier) is a raw write: the connection is not written to again"""
+    if op[0] == "send" and len(op) == 3:
+        n = wiregen.message_length(op[2])
+        if n is not None and 16 <= n < len(op[2]):
+            return ("raw", op[1], op[2])
+    return op
+
+
 def op_lines(ops, fdmode=False, groups=None, orders=None):
     """one model line per op; a `frozen` op stands for several (`groups`, when given, receives the number of lines per op)"""
+    ops = [norm_op(o) for o in ops]
     lines = []
     dirty = set()
     flat = []
@@ -775,6 +787,7 @@ def compare(ops, policy=SESSION, limits=None, extra="", impl=None):
 
 
 def _compare_once(ops, policy, limits, impl, isteps, orders):
+    ops = [norm_op(o) for o in ops]
     fdmode = any(op[0] == "fdsend" for op in ops)
     model = model_run(ops, policy, limits, fdmode, orders=orders)
     steps, died, _ = impl
